@@ -41,21 +41,21 @@ CHECKS["C05"] = dict(
 )
 
 CHECKS["C06"] = dict(
-    text="Static decision of the rejection clause ('invalid padding, wrong length or failed authentication are rejected with an error rather than returning data') over the nine cp_*_dec functions and all 14 writes through (out, *out_len) parameter pairs: unsigned arithmetic on untrusted lengths cannot wrap (LEN-SUB, extent prover over dataflow facts), writes through the output fit the announced capacity (OUT-CAP) and are dominated by the recorded authentication / padding gates (OUT-GATE, table sa/tables/c06_gates.json: ECIES tag comparison, RSA padding status), and after a failed check no path returns RLC_OK (FAIL-ERR, may-analysis incl. exceptional edges). Decryption-inverts-encryption, homomorphisms, key agreement and share reconstruction are value properties and are not decided.",
+    text="Static decision of the rejection clause ('invalid padding, wrong length or failed authentication are rejected with an error rather than returning data') over the nine cp_*_dec functions and all 14 writes through (out, *out_len) parameter pairs: unsigned arithmetic on untrusted lengths cannot wrap (LEN-SUB, extent prover over dataflow facts), writes through the output fit the announced capacity (OUT-CAP) and are dominated by the recorded authentication / padding gates (OUT-GATE, table sa/tables/c06_gates.json: ECIES tag comparison, RSA padding status), and after a failed check no path returns RLC_OK (FAIL-ERR, may-analysis incl. exceptional edges). A check whose outcome is stored in a local and overwritten before anything reads it is reported (CHECK-DEAD, liveness over src/cp). Decryption-inverts-encryption, homomorphisms, key agreement and share reconstruction are value properties and are not decided.",
     design_ref="DESIGN.md section 3 (C06)",
     note="Trusted: clang parser/CFG, extractor, extent prover (non-negative symbols), the gate table (inferred with tools/infer_c06_gates.py and read against cp_ecies_dec and cp_rsa_dec). Decryption functions with no byte output (bdpe, bgn, ghpe, phpe, shpe) have no output events; rabin/ibe have no recorded gate. Validated on every run by miniatures in sa/selftest/c06.c.",
     technique="forward must-dataflow (gate dominance, extent proofs) + may-analysis of failure-to-status flow on the clang CFG",
 )
 
 CHECKS["C18"] = dict(
-    text="Static decision of the consistency of every parameter table compiled under the parsed configuration headers (quick: 256-, 255- and 381-bit prime fields, GF(2^283); thorough: 28 further field sizes, i.e. parameter sets no test configuration instantiates): the switch cases of fp_param_set / fp_prime_set_pairf / fb_param_set / ep_param_set / eb_param_set / ed_param_set are interpreted as constant-building code over the clang CFG (CONSTEVAL; an unmodelled statement is analysis-broken, never skipped) and the integers are checked with independent arithmetic: prime modulus or irreducible polynomial, generator on the curve, prime order annihilating the generator, Hasse bound with the tabulated cofactor, GLV constants against their defining equations and the generator, embedding degree and security level advertised by ep_param_embed / ep_param_level. This property quantifies over a finite set whose data are in the source, so static evaluation decides these clauses outright. Run-time derived constants (Montgomery, lattice basis, Frobenius, map constants, twist generators) are not decided.",
+    text="Static decision of the consistency of every parameter table compiled under the parsed configuration headers (quick: 256-, 255- and 381-bit prime fields, GF(2^283); thorough: 28 further field sizes, i.e. parameter sets no test configuration instantiates): the switch cases of fp_param_set / fp_prime_set_pairf / fb_param_set / ep_param_set / eb_param_set / ed_param_set are interpreted as constant-building code over the clang CFG (CONSTEVAL; an unmodelled statement is analysis-broken, never skipped) and the integers are checked with independent arithmetic: prime modulus or irreducible polynomial, generator on the curve, prime order annihilating the generator, Hasse bound with the tabulated cofactor, GLV constants against their defining equations and the generator, embedding degree and security level advertised by ep_param_embed / ep_param_level. For pairing families the GLV eigenvalue that ep_param_set derives from the family parameter after the table switch is computed by interpreting that arm and checked against lambda^2 + lambda + 1 = 0 resp. lambda^2 + 1 = 0 modulo r and [lambda]G = (beta*x, .). This property quantifies over a finite set whose data are in the source, so static evaluation decides these clauses outright. Run-time derived constants (Montgomery, lattice basis, Frobenius, map constants, twist generators) are not decided.",
     design_ref="DESIGN.md section 3 (C18)",
     note="Trusted: clang parser/constant evaluator (macro-expanded string literals, enum values), the extractor, sa/py/relic_sa/consteval.py (interpreter of ~40 bn/fp statement forms) and sa/py/relic_sa/nt.py (Miller-Rabin + strong Lucas, affine point arithmetic over F_p, GF(2^m) and Edwards form, Rabin irreducibility). Validated on every run by miniatures (mistyped generator digit, copied order, wrong cofactor) in sa/selftest/c18.c.",
     technique="constant evaluation (abstract interpretation with concrete integers) of the parameter tables over the clang CFG + independent arithmetic",
 )
 
 CHECKS["C03"] = dict(
-    text="Static decision of two structural clauses over all 35 scalar-multiplication bodies of the prime-curve module (variable base, fixed base, simultaneous, incl. static helpers): on every path to a normal return the result is last written by a normalisation, ep_set_infty, a delegation to another routine of the family, or a form-preserving step (SM-NORM; forward must-dataflow over the exploded CFG, evaluated per world of the configuration queries such as ep_curve_is_endom()), and every scalar reaching a recoder that writes a fixed-size array was reduced modulo the group order or decomposed from such a value (SM-RED; bit-length bounds propagated through bn_mod / bn_abs / bn_rec_glv; also the scalar handed to the GLV decomposition), every sibling honours the sign of each scalar parameter (SM-SIGN), and no coordinate of an output point is read before it was written on every path (OUT-RBW). Right level: the suite compares with ep_cmp, which cross-multiplies by Z, so a dropped normalisation passes it; long scalars are never generated. The group law, the meaning of recodings and exceptional-case dispatch are value properties and are not decided.",
+    text="Static decision of two structural clauses over all 35 scalar-multiplication bodies of the prime-curve module (variable base, fixed base, simultaneous, incl. static helpers): on every path to a normal return the result is last written by a normalisation, ep_set_infty, a delegation to another routine of the family, or a form-preserving step (SM-NORM; forward must-dataflow over the exploded CFG, evaluated per world of the configuration queries such as ep_curve_is_endom()), and every scalar reaching a recoder that writes a fixed-size array was reduced modulo the group order or decomposed from such a value (SM-RED; bit-length bounds propagated through bn_mod / bn_abs / bn_rec_glv; also the scalar handed to the GLV decomposition), every sibling honours the sign of each scalar parameter (SM-SIGN), and no coordinate of an output point is read before it was written on every path (OUT-RBW). No coordinate of an input point is read in a later statement than a write of that coordinate of an output point (ALIAS-RW for single points, per world of the configuration queries); OUT-RBW also covers arrays of outputs (simultaneous normalisation) and whole-object reads. Right level: the suite compares with ep_cmp, which cross-multiplies by Z, so a dropped normalisation passes it; long scalars are never generated. The group law, the meaning of recodings and exceptional-case dispatch are value properties and are not decided.",
     design_ref="DESIGN.md section 3 (C03)",
     note="Trusted: clang parser/CFG, extractor, the tables of normalisers / form-preserving steps and of bit-length-preserving bn operations; configuration queries are assumed to return the same value at every test within one call. Validated on every run by miniatures in sa/selftest/c03.c.",
     technique="forward must-dataflow (must-pass-through with delegation closure) over the clang CFG",
@@ -69,7 +69,7 @@ CHECKS["C13"] = dict(
 )
 
 CHECKS["C12"] = dict(
-    text="Static decision of the structural clauses of C12 over g1_is_valid, g2_is_valid, gt_is_valid and the exponentiation front ends of src/pc/relic_pc_exp.c under the 256-bit (BN, SM9) and 381-bit (BLS12) configuration headers (thorough: eight further family configurations, i.e. family arms no test configuration reaches): on every path a truthy verdict implies the identity test, the on-curve resp. cyclotomic-subgroup test (or the exact order check) and an order-relation comparison, in every arm of the family switch and the default arm (VALID-ID/-CURVE/-REL, forward must-dataflow with a 'verdict implies' fact set); the element under test is not multiplied by routines that presuppose membership, and the order itself never goes through an order-reducing exponentiation (VALID-MUL); identifier-keyed shortcuts are live only for the reviewed curve, identifier values resolved through the enum of relic_ep.h (VALID-SHORTCUT); exponents are reduced modulo the order before the Frobenius decomposition (EXP-RED) and digit fast paths consult the sign (EXP-SIGN). Right level: non-members, long and negative exponents are never generated by the suite, and a missing conjunct in one family arm only shows in that family's configuration. That each family's relation is equivalent to multiplication by r, and the values of exponentiations, are not decided.",
+    text="Static decision of the structural clauses of C12 over g1_is_valid, g2_is_valid, gt_is_valid and the exponentiation front ends of src/pc/relic_pc_exp.c under the 256-bit (BN, SM9) and 381-bit (BLS12) configuration headers (thorough: eight further family configurations, i.e. family arms no test configuration reaches): on every path a truthy verdict implies the identity test, the on-curve resp. cyclotomic-subgroup test (or the exact order check) and an order-relation comparison, in every arm of the family switch and the default arm (VALID-ID/-CURVE/-REL, forward must-dataflow with a 'verdict implies' fact set); the element under test is not multiplied by routines that presuppose membership, and the order itself never goes through an order-reducing exponentiation (VALID-MUL); identifier-keyed shortcuts are live only for the reviewed curve, identifier values resolved through the enum of relic_ep.h (VALID-SHORTCUT); exponents are reduced modulo the order before the Frobenius decomposition (EXP-RED) and digit fast paths consult the sign (EXP-SIGN). Every front end honours the sign of its exponent on every path (SM-SIGN: sign test, reduction modulo the order or delegation). Right level: non-members, long and negative exponents are never generated by the suite, and a missing conjunct in one family arm only shows in that family's configuration. That each family's relation is equivalent to multiplication by r, and the values of exponentiations, are not decided.",
     design_ref="DESIGN.md section 3 (C12)",
     note="Trusted: clang parser/CFG/constant evaluator (enumerator values), extractor, the tables of plain multiplication routines, of order getters and of the reviewed shortcut curve (B12_P383); the a^(r-1) == a^-1 idiom of the default arm is accepted as found (replayed on SG18-P638: rejects cyclotomic non-members). Validated on every run by miniatures in sa/selftest/c12.c.",
     technique="forward must-dataflow (verdict-implication facts, origin tracking of exponents) over the clang CFG + enum-table resolution",
@@ -83,14 +83,14 @@ CHECKS["C15"] = dict(
 )
 
 CHECKS["C02"] = dict(
-    text="Static decision of structural necessary conditions of C02 over the prime-field module under the 256-, 255- and 381-bit configuration headers: every one of the seven selectable inversion algorithms returns normally only where fp_is_zero(a) was tested false, the zero side leaving by the error (INV0, forward must-dataflow with branch atoms - the default build selects one variant, the suite runs one); every exponentiation sibling answers 1 for the zero exponent and consults the sign of the exponent on every path returning a power (EXP-SIB); a truthy verdict of fp_srt implies a squareness test of the argument in every arm of the p mod 4 switch (SRT-VERDICT, the suite runs one prime per build); the five low-level routines whose raw result lies in [0, 2p) return only after a comparison with the modulus or its subtraction, not the carry test alone (CANON: the unreduced window [p, 2^k) is hit with probability about 2^-32..2^-2 depending on the prime and never checked by the suite, which has no canonical-form oracle); where a raw carry-returning addition is followed by the comparison with the modulus the carry-out is consulted (CANON-CARRY, analysed also under FP_RDC=QUICK where the small-constant forms use the idiom); no function of the module stores through a const parameter (CONST-IN, parameter-write summaries over the call graph); no input element is read in a later statement than a write of an output element that may be the same object (ALIAS-RW: 'out==in aliasing'). Range checks of conversions are decided under C07 (RANGE-FP). Residues, Montgomery arithmetic, roots' values and agreement of algorithm variants are value properties and are not decided.",
+    text="Static decision of structural necessary conditions of C02 over the prime-field module under the 256-, 255- and 381-bit configuration headers: every one of the seven selectable inversion algorithms returns normally only where fp_is_zero(a) was tested false, the zero side leaving by the error (INV0, forward must-dataflow with branch atoms - the default build selects one variant, the suite runs one); every exponentiation sibling answers 1 for the zero exponent and consults the sign of the exponent on every path returning a power (EXP-SIB); a truthy verdict of fp_srt implies a squareness test of the argument in every arm of the p mod 4 switch (SRT-VERDICT, the suite runs one prime per build); the five low-level routines whose raw result lies in [0, 2p) return only after a comparison with the modulus or its subtraction, not the carry test alone (CANON: the unreduced window [p, 2^k) is hit with probability about 2^-32..2^-2 depending on the prime and never checked by the suite, which has no canonical-form oracle); where a raw carry-returning addition is followed by the comparison with the modulus the carry-out is consulted (CANON-CARRY, analysed also under FP_RDC=QUICK where the small-constant forms use the idiom); no function of the module stores through a const parameter (CONST-IN, parameter-write summaries over the call graph); no input element is read in a later statement than a write of an output element that may be the same object (ALIAS-RW: 'out==in aliasing'). A bit scan of an exponent is bounded by that exponent's length (LOOP-BITS). Range checks of conversions are decided under C07 (RANGE-FP). Residues, Montgomery arithmetic, roots' values and agreement of algorithm variants are value properties and are not decided.",
     design_ref="DESIGN.md section 3 (C02)",
     note="Trusted: clang parser/CFG, extractor, the family tables (names of the inversion/exponentiation variants computed by pattern; the CANON family of five routines frozen from the tree, a vanished member is analysis-broken), parameter-write summaries (stores through casts are seen; stores through pointers kept inside const structs are not). Validated on every run by miniatures in sa/selftest/c02.c.",
     technique="forward must-dataflow (guard dominance at normal returns, verdict-implication facts) + sibling agreement + parameter-write summaries over the clang CFG/call graph",
 )
 
 CHECKS["C09"] = dict(
-    text="Static decision of structural necessary conditions of C09 over src/bn: every normal return of the three prime generators is reached with bn_is_prime(a) tested true after the last write of the result and, for the basic and strong generators, with bn_bits(a) == bits established by a loop condition (GEN-POST; forward must-dataflow with branch atoms and flag-conditioned facts for the found/retry idiom - the suite asserts primality only, never the length); every modular-exponentiation sibling (basic, sliding window, Montgomery ladder; the build selects one) consults the sign of the exponent on every path returning a power, and answers 1 where it tells the zero exponent apart (MXP-SIB); integer square root and Legendre/Jacobi symbols return normally only outside their excluded arguments (ARG-GUARD); bn_is_prime accepts only after trial division and a probabilistic test, or below a bound that constant evaluation of the trial-prime table shows to be at most the square of the last trial prime (PRIME-PIPE). Scalar-recoding buffer contracts (digits/length promised) are decided under C08 (REC-GUARD, BUF-LEN). Values of reductions, exponentiations, inverses, gcd cofactors, symbols, interpolation, the soundness of the primality tests and that a recoding denotes its input are value properties and are not decided.",
+    text="Static decision of structural necessary conditions of C09 over src/bn: every normal return of the three prime generators is reached with bn_is_prime(a) tested true after the last write of the result and, for the basic and strong generators, with bn_bits(a) == bits established by a loop condition (GEN-POST; forward must-dataflow with branch atoms and flag-conditioned facts for the found/retry idiom - the suite asserts primality only, never the length); every modular-exponentiation sibling (basic, sliding window, Montgomery ladder; the build selects one) consults the sign of the exponent on every path returning a power, and answers 1 where it tells the zero exponent apart (MXP-SIB); integer square root and Legendre/Jacobi symbols return normally only outside their excluded arguments (ARG-GUARD); bn_is_prime accepts only after trial division and a probabilistic test, or below a bound that constant evaluation of the trial-prime table shows to be at most the square of the last trial prime (PRIME-PIPE). A bit scan of an exponent is bounded by that exponent's length (LOOP-BITS). Scalar-recoding buffer contracts (digits/length promised) are decided under C08 (REC-GUARD, BUF-LEN). Values of reductions, exponentiations, inverses, gcd cofactors, symbols, interpolation, the soundness of the primality tests and that a recoding denotes its input are value properties and are not decided.",
     design_ref="DESIGN.md section 3 (C09)",
     note="Trusted: clang parser/CFG, extractor, the sibling sets computed by name pattern (floors 3+3), the table of argument guards read from the functions' documentation. The exact-length claim is made only for the generators whose construction establishes it; bn_gen_prime_safep restores a from (a-1)/2 and is held to primality only. Validated on every run by miniatures in sa/selftest/c09.c.",
     technique="forward must-dataflow (post-condition facts at normal returns, flag-conditioned facts) + sibling agreement over the clang CFG",
@@ -111,28 +111,28 @@ CHECKS["C01"] = dict(
 )
 
 CHECKS["C10"] = dict(
-    text="Static decision of three structural clauses of C10 over src/fpx under the 256- and 381-bit configuration headers (every tower compiles in every configuration; the suite runs those of one curve): every one of the 40 exponentiation siblings (generic, cyclotomic, sparse, simultaneous forms of fp2 ... fp54) consults the sign of each of its exponent parameters on every path returning a power or hands that exponent to a sibling, and answers one for a zero exponent it tells apart (EXP-SIB, forward must-dataflow; 'all exponents incl. 0, negative'); no component of an input element is read in a later statement than a write of an overlapping component of an output element of the same tower type (ALIAS-RW, may-analysis over component paths with symbolic loop indices; 376 output/input pairs); no const input is stored through (CONST-IN). Right level: the suite draws positive exponents and never passes an output that is an input to most of these functions. Every value clause - agreement with polynomial arithmetic modulo the defining polynomials, lazy reduction, sparse and compressed forms, Frobenius constants, square roots - is not decided.",
+    text="Static decision of three structural clauses of C10 over src/fpx under the 256- and 381-bit configuration headers (every tower compiles in every configuration; the suite runs those of one curve): every one of the 40 exponentiation siblings (generic, cyclotomic, sparse, simultaneous forms of fp2 ... fp54) consults the sign of each of its exponent parameters on every path returning a power or hands that exponent to a sibling, and answers one for a zero exponent it tells apart (EXP-SIB, forward must-dataflow; 'all exponents incl. 0, negative'); no component of an input element is read in a later statement than a write of an overlapping component of an output element of the same tower type (ALIAS-RW, may-analysis over component paths with symbolic loop indices; 376 output/input pairs); no const input is stored through (CONST-IN). Bit scans of exponents are bounded by the exponent's length (LOOP-BITS); ALIAS-RW also covers the low-level fpx routines (src/low/easy), where non-const parameters that are never written count as inputs. Right level: the suite draws positive exponents and never passes an output that is an input to most of these functions. Every value clause - agreement with polynomial arithmetic modulo the defining polynomials, lazy reduction, sparse and compressed forms, Frobenius constants, square roots - is not decided.",
     design_ref="DESIGN.md section 10.6 (C10)",
     note="Trusted: clang parser/CFG, extractor, the name pattern of the siblings (floor 35), the assumption that loops step their index monotonically (an element written in an earlier iteration is a different element), one reviewed ALIAS-RW exception (fp3_srt default arm). Validated on every run by miniatures in sa/selftest/c10.c.",
     technique="forward must-dataflow (sibling agreement on exponent handling) + field/component-sensitive may-alias read-after-write analysis + parameter-write summaries over the clang CFG",
 )
 
 CHECKS["C16"] = dict(
-    text="Static decision of four structural clauses of C16 over src/fb and src/fbx: all eight selectable inversion algorithms return normally only where fb_is_zero(a) was tested false, the zero side leaving by the error (INV0, sibling agreement; the build selects one variant); the three exponentiation siblings consult the sign of the exponent on every path returning a power and answer one for a zero exponent they tell apart (EXP-SIB); no input element is read in a later statement than a write of an output element that may be the same object (ALIAS-RW); no const input is stored through (CONST-IN); every binary-curve scalar-multiplication sibling honours the sign of each scalar parameter (SM-SIGN, 30 scalar parameters) and no coordinate of an output point is read before it was written (OUT-RBW, 51 outputs). Polynomial arithmetic over GF(2), reduction modulo the configured polynomial, trace/half-trace, the binary-curve group law, halving, Frobenius and every scalar-multiplication value are value properties and are not decided; the binary-curve decoders, recoding buffers and ladders are decided under C07, C08 and C20.",
+    text="Static decision of four structural clauses of C16 over src/fb and src/fbx: all eight selectable inversion algorithms return normally only where fb_is_zero(a) was tested false, the zero side leaving by the error (INV0, sibling agreement; the build selects one variant); the three exponentiation siblings consult the sign of the exponent on every path returning a power and answer one for a zero exponent they tell apart (EXP-SIB); no input element is read in a later statement than a write of an output element that may be the same object (ALIAS-RW); no const input is stored through (CONST-IN); every binary-curve scalar-multiplication sibling honours the sign of each scalar parameter (SM-SIGN, 30 scalar parameters) and no coordinate of an output point is read before it was written (OUT-RBW, 51 outputs). Bit scans of exponents and scalars are bounded by their length (LOOP-BITS); ALIAS-RW also covers single binary-curve points. Polynomial arithmetic over GF(2), reduction modulo the configured polynomial, trace/half-trace, the binary-curve group law, halving, Frobenius and every scalar-multiplication value are value properties and are not decided; the binary-curve decoders, recoding buffers and ladders are decided under C07, C08 and C20.",
     design_ref="DESIGN.md section 10.6 (C16)",
     note="Trusted: clang parser/CFG, extractor, the sibling name patterns (floors 8 and 3), two reviewed ALIAS-RW exceptions (in-place batch inversion reads element i before writing it). Validated on every run by miniatures in sa/selftest/c16.c.",
     technique="forward must-dataflow (guard dominance at normal returns, sibling agreement) + may-alias read-after-write analysis + parameter-write summaries over the clang CFG",
 )
 
 CHECKS["C11"] = dict(
-    text="Static decision of three structural clauses of C11 over src/epx (curves over quadratic, cubic, quartic and octic extensions; the ep3/ep4/ep8 code compiles in every configuration and is run by none of the suite's) under the 256- and 381-bit configuration headers: every scalar-multiplication sibling - variable base, fixed base, simultaneous and GLS forms, 114 scalar parameters - honours the sign of each scalar on every path that returns a point computed from it, by a sign test (also of a copy or of the sub-scalars of a decomposition), a reduction modulo the order or delegation to a sibling, paths on which the term is moot or the result is the identity excepted (SM-SIGN: forward must-dataflow per world of the configuration queries; 'all scalars as in C03 ... negative'); no coordinate of an output point is read before it was written on every path (OUT-RBW, must-definition analysis over 231 outputs; the suite calls these routines in place, where such a slip is invisible); no const input is stored through (CONST-IN). The cofactor routines are decided under C13, decoders/buffers/regular recodings under C07/C08/C20. The group law, [k]Q as a value, the Frobenius eigenvalue and the cofactor image are algebraic and are not decided; scalars longer than the group order are not reduced by these siblings today and that clause is not claimed (DESIGN.md 10.6).",
+    text="Static decision of three structural clauses of C11 over src/epx (curves over quadratic, cubic, quartic and octic extensions; the ep3/ep4/ep8 code compiles in every configuration and is run by none of the suite's) under the 256- and 381-bit configuration headers: every scalar-multiplication sibling - variable base, fixed base, simultaneous and GLS forms, 114 scalar parameters - honours the sign of each scalar on every path that returns a point computed from it, by a sign test (also of a copy or of the sub-scalars of a decomposition), a reduction modulo the order or delegation to a sibling, paths on which the term is moot or the result is the identity excepted (SM-SIGN: forward must-dataflow per world of the configuration queries; 'all scalars as in C03 ... negative'); no coordinate of an output point is read before it was written on every path (OUT-RBW, must-definition analysis over 231 outputs; the suite calls these routines in place, where such a slip is invisible); no const input is stored through (CONST-IN). ALIAS-RW for single points, LOOP-BITS for bit scans of scalars and PAR-SIGN (the signed curve parameter's low digit is never used as a whole multiplier without its sign being consulted; expected count zero, kept alive by its miniature) are decided as well. The cofactor routines are decided under C13, decoders/buffers/regular recodings under C07/C08/C20. The group law, [k]Q as a value, the Frobenius eigenvalue and the cofactor image are algebraic and are not decided; scalars longer than the group order are not reduced by these siblings today and that clause is not claimed (DESIGN.md 10.6).",
     design_ref="DESIGN.md section 10.6 (C11)",
     note="Trusted: clang parser/CFG, extractor, the sibling name pattern (floor 100 scalar parameters), the convention that the point a scalar multiplies is the parameter just before it, that bn_rec_frb/bn_rec_glv give their sub-scalars signs that denote the scalar's. Validated on every run by miniatures in sa/selftest/c11.c.",
     technique="forward must-dataflow (sibling agreement on scalar sign handling) + must-definition analysis of output fields + parameter-write summaries over the clang CFG",
 )
 
 CHECKS["C17"] = dict(
-    text="Static decision of three structural clauses of C17 over src/ed under the 256-bit configuration header - where no Edwards curve is selectable, so the suite runs none of this module while the analyser parses all of it - and the 255-bit one: every scalar-multiplication sibling honours the sign of each scalar parameter on every path that returns a point computed from it (SM-SIGN, 27 scalar parameters); no coordinate of an output point is read before it was written on every path (OUT-RBW, 44 outputs); no const input is stored through (CONST-IN). Hashing to the curve and cofactor clearing are decided under C13, the decoder under C07, recoding buffers under C08 (where the module's one-short buffer was found), the ladder under C20. The Edwards group law in each coordinate system, [k]P as a value and the compression round trip are value properties and are not decided; scalars longer than the group order are not reduced by these siblings today and that clause is not claimed (DESIGN.md 10.6).",
+    text="Static decision of three structural clauses of C17 over src/ed under the 256-bit configuration header - where no Edwards curve is selectable, so the suite runs none of this module while the analyser parses all of it - and the 255-bit one: every scalar-multiplication sibling honours the sign of each scalar parameter on every path that returns a point computed from it (SM-SIGN, 27 scalar parameters); no coordinate of an output point is read before it was written on every path (OUT-RBW, 44 outputs); no const input is stored through (CONST-IN). ALIAS-RW for single points and LOOP-BITS for bit scans of scalars are decided as well. Hashing to the curve and cofactor clearing are decided under C13, the decoder under C07, recoding buffers under C08 (where the module's one-short buffer was found), the ladder under C20. The Edwards group law in each coordinate system, [k]P as a value and the compression round trip are value properties and are not decided; scalars longer than the group order are not reduced by these siblings today and that clause is not claimed (DESIGN.md 10.6).",
     design_ref="DESIGN.md section 10.6 (C17)",
     note="Trusted: clang parser/CFG, extractor, the sibling name pattern (floor 20 scalar parameters), the convention that the point a scalar multiplies is the parameter just before it. Validated on every run by miniatures in sa/selftest/c17.c.",
     technique="forward must-dataflow (sibling agreement on scalar sign handling) + must-definition analysis of output fields + parameter-write summaries over the clang CFG",
